@@ -143,10 +143,49 @@ def work(chunk, st):
             st.sample({'case': list(case), 'lists': [list(x) for x in build(case)]})
 
 
+HIST = {
+    'exposed-all': (['curve25519-sha256'], ['aes256-ctr', 'chacha20-poly1305@openssh.com', 'aes128-cbc', '3des-cbc'], ['hmac-sha2-256', 'umac-64-etm@openssh.com', 'hmac-sha2-512-etm@openssh.com']),
+    'hardened-all': (['curve25519-sha256', MARK_S], ['aes256-ctr', 'chacha20-poly1305@openssh.com', 'aes128-cbc', '3des-cbc'], ['hmac-sha2-256', 'umac-64-etm@openssh.com', 'hmac-sha2-512-etm@openssh.com']),
+    'cbc-only': (['curve25519-sha256'], ['aes256-ctr', 'aes128-cbc', '3des-cbc'], ['hmac-sha2-256']),
+    'etm-only': (['curve25519-sha256'], ['aes256-ctr'], ['hmac-sha2-256', 'umac-64-etm@openssh.com']),
+    'none': (['curve25519-sha256'], ['aes256-ctr'], ['hmac-sha2-256']),
+}
+
+
+def work_history(chunk, st):
+    for kinds, fmt in chunk:
+        servers = [peer.Server(kex=HIST[k][0], enc=HIST[k][1], mac=HIST[k][2], banner=b'SSH-2.0-OpenSSH_9.6') for k in kinds]
+        res, outs = H.audit_sequence(servers, opts=['-n', '--skip-rate-test'] + (['-j'] if fmt == 'json' else []))
+        st.execution(res.world, outcome=('history', fmt, len(kinds)), root=('history', kinds, fmt), nontrivial=('history', kinds, fmt))
+        if outs is None or len(outs) != len(kinds):
+            st.violation('history:output-shape', {'kinds': kinds, 'fmt': fmt, 'stdout': res.stdout[-200:]})
+            continue
+        for k, o in zip(kinds, outs):
+            kex, enc, mac = HIST[k]
+            v_enc, v_mac = T.exposed(enc, mac)
+            want = [] if T.marker_present(kex, False) else v_enc + v_mac
+            flagged = []
+            if fmt == 'json':
+                for cat in ('enc', 'mac'):
+                    for e in o.get(cat, []):
+                        if any(T.TERRAPIN_NOTE in t for lv in e.get('notes', {}) for t in e['notes'][lv]):
+                            flagged.append(e['algorithm'])
+            else:
+                rep = report.TextReport(o)
+                for cat in ('enc', 'mac'):
+                    flagged += [a['name'] for a in rep.algs[cat] if any(T.TERRAPIN_NOTE in t for _l, t in a['notes'])]
+            if sorted(flagged) != sorted(want):
+                st.violation('history:warnings-depend-on-earlier-targets:%s' % fmt, {'targets_in_run': kinds, 'target': k, 'flagged': flagged, 'expected': want})
+    st.sample({'history': list(chunk[0][0]), 'fmt': chunk[0][1]}, cap=14)
+
+
 def run(tier, seed):
     t0 = time.time()
     cs = cases(tier)
     st = par.pmap(work, cs)
+    import itertools
+    hist = [(k, f) for n in (2, 3) for k in itertools.product(list(HIST), repeat=n) for f in ('text', 'json') if n == 2 or tier != 'quick' or k[0] == k[2]]
+    par.pmap(work_history, hist, stats=st, chunk=4)
     vcases = []
     for case in H.pick(cs, seed, 30 if tier == 'quick' else 150):
         role, marker, ch, cb, et = case
@@ -160,7 +199,8 @@ def run(tier, seed):
     return evidence.finish(
         PID, tier, seed, st, t0,
         rule='full product role(2) x marker(4) x chacha{absent, each DB name, unknown} x cbc{absent, each DB name, two, unknown} '
-             'x etm{absent, each DB name, two, unknown} x {text, json}; a case is non-trivial when the exposed set V is non-empty',
+             'x etm{absent, each DB name, two, unknown} x {text, json}; plus histories: every ordered pair (thorough: triple) of 5 target kinds in ONE '
+             '-T invocation, rule applied to each target; a case is non-trivial when the exposed set V is non-empty',
         assumptions=['virtual socket layer models TCP delivery in whole segments', 'reference rule: refmodels/terrapin.py',
                      'lists are symmetric (c2s == s2c)'],
         exhaustive=True, traces_validated=validated, extra={'cases': len(cs)})
